@@ -13,7 +13,7 @@ RULE = ("full-box enumeration, one process per (specification, topology, request
 
 TOPOS = {1: ("pack:1 core:1 pu:1", 1, 1), 2: ("pack:1 core:2 pu:1", 1, 2), 4: ("pack:2 core:2 pu:1", 2, 2), 6: ("pack:2 core:3 pu:1", 2, 3), 8: ("pack:2 core:4 pu:1", 2, 4)}
 BINDINGS = ["0", "0,1", "1,3", "0-2", "1,3,5-6", "0x3", "0xf", "0x5", "0;;", ";2;", "1;3;2", ";;2"]
-BAD_BINDINGS = ["9", "x", "", "0x0", "-1", "0,,1", "7-5", ";;0", "99;;", "0x100000000"]
+BAD_BINDINGS = ["9", "x", "", "0x0", "-1", "0,,1", "7-5", ";;0", "99;;", "0x100000000", "3;1;", "2;0;2", "1;0;1"]   # last three: reversed ranges (start > end; seeded change C40-1)
 
 
 def expand_binding(b, real):
